@@ -550,6 +550,35 @@ COMPILE_PROBES += [
      + "fn main() {}\n"),
 ]
 
+COMPILE_PROBES += [
+    # user items named like the paths the expansion uses (`core`, `rust_cc` is unavoidable) are in scope at the derive
+    # site: the Drop guard must still be the real `core::ops::Drop` (the conflict with a user Drop impl must remain)
+    ("drop_conflict_core_shadowed", "fail", "E0119", CP_PRELUDE + """mod inner {
+    #![allow(dead_code)]
+    use rust_cc::*;
+    // a user module called `core`, with look-alike items
+    pub mod core { pub mod ops { pub trait Drop { fn drop(&mut self); } } }
+    #[derive(Trace, Finalize)]
+    pub struct S { pub a: Cc<u32>, pub b: u8 }
+    impl ::core::ops::Drop for S { fn drop(&mut self) {} }
+}
+fn main() { let _ = Cc::new(inner::S { a: Cc::new(1), b: 2 }); }
+"""),
+    ("drop_impl_emitted_core_shadowed", "pass", None, CP_PRELUDE + """mod inner {
+    #![allow(dead_code)]
+    use rust_cc::*;
+    pub mod core { pub mod ops { pub trait Drop { fn drop(&mut self); } } }
+    #[derive(Trace, Finalize)]
+    pub struct Plain { pub a: u32 }
+    #[derive(Trace, Finalize)]
+    pub enum PlainE { A, B(u8) }
+}
+const _: () = assert!(std::mem::needs_drop::<inner::Plain>());
+const _: () = assert!(std::mem::needs_drop::<inner::PlainE>());
+fn main() {}
+"""),
+]
+
 CP_CARGO = """[package]
 name = "derive-compile-probes"
 version = "0.1.0"
